@@ -191,6 +191,8 @@ type vInst struct {
 	fill  []string
 }
 
+var vAllowSeq int
+
 func vNewInst(t *testing.T, s *vSink, c *vConc, cfg vCfg) *vInst {
 	in := &vInst{t: t, s: s, c: c, stale: map[string]*suspicion{}}
 	conf := DefaultLANConfig()
@@ -217,8 +219,27 @@ func vNewInst(t *testing.T, s *vSink, c *vConc, cfg vCfg) *vInst {
 		veto = string(c.meta[vm])
 		conf.Alive = &vAliveDelegate{veto: veto}
 	}
+	allow := c.allow
 	if cfg.AllowOn {
-		nets, err := ParseCIDRs(c.allow)
+		// the same allowlist as operators write it: plain; every network listed twice; with a narrower network inside
+		// each entry (lists are concatenated from several sources) - the meaning is the same
+		vAllowSeq++
+		switch vAllowSeq % 3 {
+		case 1:
+			allow = append(append([]string{}, c.allow...), c.allow...)
+		case 2:
+			allow = append([]string{}, c.allow...)
+			for _, a := range c.allow {
+				if ip, nw, err := net.ParseCIDR(a); err == nil {
+					ones, bits := nw.Mask.Size()
+					if ones+8 <= bits {
+						allow = append(allow, fmt.Sprintf("%s/%d", ip.String(), ones+8))
+					}
+				}
+			}
+			allow = append(allow, c.allow[0])
+		}
+		nets, err := ParseCIDRs(allow)
 		if err != nil {
 			t.Fatal(err)
 		}
@@ -232,7 +253,7 @@ func vNewInst(t *testing.T, s *vSink, c *vConc, cfg vCfg) *vInst {
 	tc := cfg
 	tc.Reclaim = conf.DeadNodeReclaimTime.Milliseconds()
 	tc.GossipDead = conf.GossipToTheDeadTime.Milliseconds()
-	n := s.register(m, tc, c.allow, veto, c.labels())
+	n := s.register(m, tc, allow, veto, c.labels())
 	in.t0 = time.Now()
 	s.mu.Lock()
 	s.epoch = in.t0 // times in the trace are relative to the start of the case
